@@ -524,6 +524,35 @@ func (g *Gen) havocTarget(env *Env, st *State, m Expr) error {
 					i, i, s.L[1], i, s.L[1], s.L[2], inner, i, smtSel(c, s.L[0]), i, inner, i))
 			}
 			return nil
+		case "pointee_elems":
+			// pointee_elems(h): h is an interface (or pointer) whose pointee is a slice: the elements of that slice's backing array
+			p := env.eval(x.Args[0])
+			pt := p.T
+			pv := p
+			if types.IsInterface(p.T) {
+				if p.Dyn == nil {
+					return fmt.Errorf("pointee_elems(%s): dynamic type of the interface value is not known at this call site", exprString(x.Args[0]))
+				}
+				pt = p.Dyn
+				pv = &Value{T: p.Dyn, L: []string{p.L[1]}}
+			}
+			ptr, ok := types.Unalias(pt).Underlying().(*types.Pointer)
+			if !ok {
+				return nil
+			}
+			sl, ok := types.Unalias(ptr.Elem()).Underlying().(*types.Slice)
+			if !ok {
+				return nil
+			}
+			sv := g.load(st, g.lvOf(nil, st, pv))
+			for _, l := range g.W.shapes.shape(sl.Elem()) {
+				key := g.elemCompKey(sl.Elem(), l.Path)
+				srt := arrSort(sInt, arrSort(sInt, l.Sort))
+				c := g.compTerm(st, key, srt)
+				g.setComp(st, key, srt, smtSto(c, sv.L[0], g.fresh("hv.E", arrSort(sInt, l.Sort))))
+				g.logWrite(key, sv.L[0])
+			}
+			return nil
 		case "allelems":
 			// every element of every slice/array with this element type (given by a slice expression or a type name)
 			var sl *types.Slice
@@ -541,7 +570,11 @@ func (g *Gen) havocTarget(env *Env, st *State, m Expr) error {
 				if _, isVar := env.vars[root]; !isVar && env.lookupLocal(root) == nil {
 					g.dryFacts++
 					if t, terr := g.W.lookupType(&TypeX{Kind: "name", Name: tname}, env.pkgPath); terr == nil {
-						sl = types.NewSlice(t)
+						if us, ok := types.Unalias(t).Underlying().(*types.Slice); ok {
+							sl = us // a named slice type stands for "slices of its element type"
+						} else {
+							sl = types.NewSlice(t)
+						}
 					}
 					g.dryFacts--
 				}
@@ -768,6 +801,9 @@ func (g *Gen) appendOp(fr *frame, st *State, s, t *Value, rt types.Type) *Value 
 			g.addCons(fmt.Sprintf("(= (bytesval %s %s %s) (bytescat (bytesval %s %s %s) (bytesval %s %s %s)))", inner, res.L[1], nl,
 				smtSel(c, s.L[0]), s.L[1], s.L[2], smtSel(c, t.L[0]), t.L[1], t.L[2]))
 			g.noteBytes(inner, res.L[1], nl)
+			// ... whose first len(s) bytes are s and whose last len(t) bytes are t
+			g.addCons(fmt.Sprintf("(= (bytesval %s %s %s) (bytesval %s %s %s))", inner, res.L[1], s.L[2], smtSel(c, s.L[0]), s.L[1], s.L[2]))
+			g.addCons(fmt.Sprintf("(= (bytesval %s (+ %s %s) %s) (bytesval %s %s %s))", inner, res.L[1], s.L[2], t.L[2], smtSel(c, t.L[0]), t.L[1], t.L[2]))
 		}
 		// in place: cells outside [off+len, off+newlen) of the old object keep their values
 		body3 := fmt.Sprintf("(=> (and %s (or (< %s (+ %s %s)) (>= %s (+ %s %s)))) (= (select %s %s) (select (select %s %s) %s)))", inplace, i, s.L[1], s.L[2], i, s.L[1], nl, inner, i, c, s.L[0], i)
